@@ -148,6 +148,46 @@ func (k *Key) Fragment() string {
 	return "key-1"
 }
 
+// DocEntry is one keyAgreement entry of a party's DID document: a party key (of a supported verification-method
+// type) or a FOREIGN entry (a type the resolvers cannot build a key from, or an entry without key material).
+type DocEntry struct {
+	Frag string
+	Type string
+	Key  *Key // nil: foreign entry
+}
+
+// PartyDoc lists the keyAgreement entries of the party's document in order.  Between the party's own keys
+// (X25519KeyAgreementKey2019 and JsonWebKey2020 entries of every curve the party has) stand foreign entries: before
+// the first key, in the middle and at the end; their fragments are suffix-related to the keys' fragments as well.
+func (w *World) PartyDoc(p int) []DocEntry {
+	ks := w.PartyKeys(p)
+
+	var es []DocEntry
+
+	es = append(es, DocEntry{Frag: strings.Repeat("alt-", len(ks)) + "key-1", Type: "X25519KeyAgreementKey2020"})
+
+	for j, k := range ks {
+		typ := "JsonWebKey2020"
+		if k.KT == X25519 {
+			typ = "X25519KeyAgreementKey2019"
+		}
+
+		es = append(es, DocEntry{Frag: k.Fragment(), Type: typ, Key: k})
+
+		switch j {
+		case 1:
+			es = append(es, DocEntry{Frag: "ed-key-1", Type: "Ed25519VerificationKey2018"})
+		case 3:
+			es = append(es, DocEntry{Frag: "suite-key-1", Type: "UnknownSuite2099"})
+		}
+	}
+
+	es = append(es, DocEntry{Frag: "empty-key-1", Type: "JsonWebKey2020"}) // no key material
+	es = append(es, DocEntry{Frag: "multikey-1", Type: "Multikey"})
+
+	return es
+}
+
 // DocRef is <KeyDID>#key-1.
 func (k *Key) DocRef() string { return k.KeyDID() + "#key-1" }
 
@@ -302,13 +342,32 @@ func (w *World) resolve(id string, _ ...vdrspi.DIDMethodOption) (*did.DocResolut
 
 		doc = &did.Doc{ID: id}
 
-		for _, k := range w.PartyKeys(p) {
-			vmID := k.PDoc()
+		if len(w.PartyKeys(p)) == 0 {
+			doc = nil
+			continue
+		}
+
+		for i, e := range w.PartyDoc(p) {
+			vmID := id + "#" + e.Frag
 			if p%2 == 1 {
-				vmID = "#" + k.Fragment() // relative verification method ids
+				vmID = "#" + e.Frag // relative verification method ids
 			}
 
-			doc.KeyAgreement = append(doc.KeyAgreement, w.vm(k, vmID, id))
+			if e.Key != nil {
+				doc.KeyAgreement = append(doc.KeyAgreement, w.vm(e.Key, vmID, id))
+				continue
+			}
+
+			var val []byte
+			if e.Type != "JsonWebKey2020" {
+				val = make([]byte, 32)
+				for j := range val {
+					val[j] = byte(7*i + j + p)
+				}
+			}
+
+			doc.KeyAgreement = append(doc.KeyAgreement,
+				did.Verification{VerificationMethod: *did.NewVerificationMethodFromBytes(vmID, e.Type, id, val)})
 		}
 
 		if len(doc.KeyAgreement) == 0 {
